@@ -13,7 +13,6 @@ Oracles (all independent of the order-handling code under test):
 
 from __future__ import annotations
 
-import copy
 import itertools
 import re
 import warnings
@@ -356,9 +355,8 @@ def compare_arrays(name, a, b, where, clause, mc_labels, tol=None, weight=None, 
         sc = float(np.broadcast_to(scale, rel.shape)[idx])
         at = {dname: (a.coords[dname].values[i].item() if dname in a.coords else int(i)) for dname, i in zip(a.dims, idx)}
         labels = {d_: a.coords[d_].values.tolist() for d_ in a.dims if _is_label_dim(a, d_) and a.coords[d_].dtype.kind in "OUS"}
-        tlabels = {d_: b.coords[d_].values.tolist() for d_ in labels}
         check(False, clause, lambda: f"{where}: '{name}' differs between the twins by {err[idx]:.3e} (slice scale {sc:.3e}) at {at}; "
-              f"base value {x[idx]!r}, twin value {y[idx]!r}; label order base {labels}")
+              f"base value {x[idx]!r}, twin value {y[idx]!r}; labels {labels}")
     return worst
 
 
